@@ -473,6 +473,44 @@ func TestC09(t *testing.T) {
 		}
 	}
 	ev.Class("text-edge-bytes", nText)
+	// (a4) the whole v2 textDescription structure by construction: the position of the Unicode and ScriptCode
+	// counts depends on the ASCII count, so a field map with fixed offsets cannot keep two of them hostile at once
+	var nDesc int64
+	{
+		ucCounts := []uint32{0, 1, 2, 3, 4, 8, 0x7FFFFFFF, 0x80000000, 0xFFFFFFFF, 0xFFFFFFFE, 0x40000000, 0x40000001}
+		for _, v := range mut.WrapValues(64) {
+			ucCounts = append(ucCounts, uint32(v))
+		}
+		for k := uint32(1); k <= 40; k++ {
+			ucCounts = append(ucCounts, 0x80000000+k)
+		}
+		for _, ascii := range []string{"", "a", "hostile text"} {
+			for _, ac := range []uint32{uint32(len(ascii)) + 1, uint32(len(ascii)), 0, 1} {
+				if int(ac) > len(ascii)+1 {
+					continue
+				}
+				ab := append([]byte(ascii), 0)
+				for _, ucn := range []int{0, 1, 4, 33} {
+					uc := make([]byte, 2*ucn)
+					for i := range uc {
+						uc[i] = byte(0x41 + i%23*(i&1))
+					}
+					for _, ucc := range ucCounts {
+						for _, sc := range []struct {
+							n   uint8
+							pad int
+						}{{0, 67}, {67, 67}, {255, 0}} {
+							tag := build.TextDescFull(ac, ab[:ac], 0x656E5553, ucc, uc, 0, sc.n, make([]byte, sc.pad))
+							rc.run(Case{Desc: fmt.Sprintf("textDescription ascii=%q count=%d unicode count=%#x with %d units present, scriptcode count=%d", ascii, ac, ucc, ucn, sc.n),
+								Target: "icc", Data: build.SimpleProfile(tag, 0)}, true)
+							nDesc++
+						}
+					}
+				}
+			}
+		}
+	}
+	ev.Class("textdescription-grid", nDesc)
 	// (c) truncations
 	var nTrunc int64
 	for _, sd := range all {
